@@ -46,10 +46,20 @@ static void phys(void) {
         size_t blk = block_size(a->buffer) / sizeof(void *);
         size_t g = (size_t)(a->capacity * a->exp_factor);
         o("size%d=%zu cap%d=%zu blk%d=%zu g%d=%zu ", k, a->size, k, a->capacity, k, blk, k, g);
+        if (!sweep_now) {
+            /* sparse session between two `observe`s: first and last live slot and an FNV-1a style checksum
+             * of the live slots (h = (h ^ v) * 0x100000001b3 per element, 64 bit) instead of the dump */
+            unsigned long long h = 0xcbf29ce484222325ULL; size_t n = a->size < blk ? a->size : blk;
+            for (size_t i = 0; i < n; i++) h = (h ^ VAL(a->buffer[i])) * 0x100000001b3ULL;
+            if (n) o("first%d=%llu last%d=%llu ", k, VAL(a->buffer[0]), k, VAL(a->buffer[n - 1]));
+            else o("first%d=- last%d=- ", k, k);
+            o("sum%d=%llu", k, h);
+        } else {
         char nm[8]; snprintf(nm, sizeof nm, "buf%d", k);
         O_LIST(nm);
         for (size_t i = 0; i < a->size && i < blk; i++) o_item(VAL(a->buffer[i]));
         o_end();
+        }
         if (block_size(a->buffer) < a->capacity * sizeof(void *)) o(" WALK=buf-block-too-small");
         if (a->size > a->capacity) o(" WALK=size-gt-capacity");
         if (block_size(a) != sizeof(CC_Array)) o(" WALK=array-struct-block");
